@@ -48,6 +48,8 @@ REQUIRED_PROBES = ['count_negative', 'count_gt_depth', 'count_eq_depth',
                    'alias_lowercase', 'failed_activation', 'node_restart',
                    'program_accepted_upgraded', 'upgraded_rejects_legacy_accepts',
                    'merkleval_program_accepted_upgraded']
+SPELL_CONTEXTS = ['true if { %s }', 'def 0 { %s }', 'try { %s } except { true }',
+                  'true loop { %s false }', 'false if { true } else { %s }']
 PREDS = ['all_equal', 'all_distinct', 'none_empty', 'total_len_le', 'first_is_sha_of_second',
          'count_eq', 'always', 'never']
 
@@ -747,6 +749,23 @@ def check_spellings(run, node, f, count, how, i, legacy=None):
                       kind, case, 'does_not_compile' if r[0] == 'exc' else 'compiles_to_other_bytes'),
                   step=i, detail={'spelling': sp, 'arg': arg, 'got': [r[0], r[1].hex() if r[0] == 'ok' else r[1]],
                                   'want': want.hex(), 'fork': f})
+    # ... and from inside every kind of block (expected bytes: what the pristine
+    # compiler makes of the same source spelled with NOPn)
+    for sp in [f['name']] + list(f['aliases']):
+        for ctx in SPELL_CONTEXTS:
+            try:
+                exp = T.compile_script(ctx % ('NOP%d x%02x' % (code, count)))
+            except LIB_ERRORS:
+                continue
+            r = node.call('compile', ctx % ('%s %s' % (sp, arg)))
+            kind = 'name' if sp == f['name'] else 'alias'
+            if not run.check('fork_reachable_inside_blocks', r == ['ok', exp],
+                             'C20/reachability/%s_inside_block/%s' % (
+                                 kind, 'does_not_compile' if r[0] == 'exc' else 'compiles_to_other_bytes'),
+                             step=i, detail={'source': ctx % ('%s %s' % (sp, arg)),
+                                             'got': [r[0], r[1].hex() if r[0] == 'ok' else r[1]],
+                                             'want': exp.hex(), 'fork': f}):
+                break
     # the upgraded node decompiles the bytes to the new name, and the listing recompiles
     r = node.call('decompile', want)
     ok = r[0] == 'ok' and len(r[1]) == 1 and r[1][0].split()[0] == f['name'].upper()
